@@ -293,3 +293,14 @@ def run(repo: Repo, rep: Report) -> None:  # noqa: F811
         rep.ob("C06.h-trix-unnamed-graph-is-a-fresh-blank-node-graph", tp, "TriXHandler.startElementNS", c, ok,
                "fresh blank-node graph" if anon else ("named from the document" if named_from_doc else
                "an unnamed <graph> is mapped to %s: every blank-node-named graph the writer produced comes back merged into the default graph" % norm(ident[0])), node=c)
+
+
+_run_before_borrow = run
+
+
+def run(repo: Repo, rep: Report) -> None:  # noqa: F811
+    _run_before_borrow(repo, rep)
+    from vlib.core import borrow
+
+    borrow(repo, rep, "C06", "C12", ('C12.b2',))
+    borrow(repo, rep, "C06", "C02", ('C02.a',))
